@@ -691,8 +691,43 @@ class EGraph:
         sw = self._swapped_with(inst, l, v)
         if sw is not None:
             v = sw
+        else:
+            acc = self._accumulated_string(inst, l, v)
+            if acc is not None:
+                v = acc
         self._prov_memo[key] = v
         return v
+
+    def _accumulated_string(self, inst, l, v):
+        """a String that starts empty and is filled by `push` / `push_str` / `write!` in the same function (a hand-written formatter): its value
+        depends on everything that was pushed - kept as the arguments of one synthetic call so that dependence on an input stays visible"""
+        if not (isinstance(v, tuple) and v and v[0] == "call" and re.search(r"string::String::(new|with_capacity)$", str(v[1]))):
+            return None
+        body = inst.body
+        parts = []
+        for bi, blk in enumerate(body["blocks"]):
+            if blk.get("cleanup"):
+                continue
+            t = blk["term"]
+            if t["k"] != "call" or not t.get("callee") or not t.get("args"):
+                continue
+            if not re.search(r"string::String::(push|push_str|insert|insert_str|extend)$|fmt::Write::(write_str|write_fmt|write_char)$|iter::Extend", t["callee"]["path"]):
+                continue
+            a0 = t["args"][0]
+            if a0["k"] not in ("copy", "move") or a0["p"]["proj"]:
+                continue
+            r = self._pointee(inst, a0["p"]["l"])
+            guard = 0
+            while r is not None and r[1]["proj"] == ["deref"] and guard < 8:
+                guard += 1
+                r = self._pointee(r[0], r[1]["l"])
+            if r is None or r[0] is not inst or r[1]["l"] != l or r[1]["proj"]:
+                continue
+            for a in t["args"][1:]:
+                parts.append(self.prov_operand(inst, a))
+        if not parts:
+            return None
+        return ("call", "accumulated::String", tuple(parts), v[3] if len(v) > 3 else None)
 
     _EMPTY_CTOR = re.compile(r"(Vec::<T>|vec::Vec::<T>|String|string::String)::new$|default::Default::default$|Vec::<T, A>::new_in$")
 
